@@ -266,7 +266,7 @@ func (e *Engine) verifyFuncInstance(rep *FuncReport, fn *ssa.Function, fc *contr
 		res := r.mergeVals(conds, vals)
 		bindResults(en2, fc, fn.Signature.Results(), res)
 	}
-	if len(exit.preds) > 0 {
+	if len(exit.preds) > 0 && !fc.NoFrame {
 		r.frameObligations(fr, en2, pre, exit, fc.Modifies, alloc0)
 	}
 	for k, cl := range fc.Ensures {
